@@ -1,114 +1,161 @@
 (* C18 — Subprocess results are faithful: exit status and every output line.
-   Property theorems only (each closed by a lemma of Proofs.v, followed by Print Assumptions).
-   Model: GU.C18.Model — logging.go (logStreamer Write/Flush, as repaired by the fix "subprocess output lines are no
-   longer split across pipe reads"), command_wrapper.go (Run + flushOutput, ConvertCommandError), proc/errors.go,
-   messaging.go (LogStart/LogEnd), executor.go (Execute, as repaired by the fix "Execute reports a context error ...",
-   OutputAsWithEnvironment). Tied to the code by harness/cmd/c18 (chunk scripts through the hook, real children). *)
+   Property theorems only. Each is stated for the model (GU.C18.Model, an interpreter of a record of facts about the
+   code) instantiated with [gen_facts], the record GENERATED from utils/subprocess/{logging,command_wrapper,executor,
+   messaging}.go and utils/proc/errors.go of the working tree by translator-c18 on every run (GU.C18.Gen). Each proof
+   applies a lemma of Proofs.v which holds for EVERY record satisfying the conditions named in the proof
+   (adapter_ok / wiring_ok / exec_ok / exit_ok / output_ok, GU.C18.Facts) and checks by computation that the generated
+   record satisfies them: an edit of the code which changes a fact the property depends on breaks the theorem(s)
+   depending on it. Tied to the behaviour of the code by harness/cmd/c18 (chunk scripts through the hook, real children). *)
 From Coq Require Import List ZArith Bool.
 Import ListNotations.
-From GU Require Import C18.Model C18.Proofs.
+From GU Require Import C18.Model C18.Proofs C18.Gen.
 Local Open Scope Z_scope.
+
+Notation G := gen_facts.
 
 (* THE line property: for EVERY list of chunks (= every way the pipe reads / the child's writes cut the stream: any
    volume, any line length, cuts at arbitrary byte offsets, final line with or without newline) the adapter, once
    flushed, has logged exactly the non-empty lines of the stream: complete, unmodified, in order. *)
-Theorem stream_lines_exact : forall chunks, stream_log chunks = lines_of (concat chunks).
-Proof. exact stream_lines_exact_l. Qed.
+Theorem stream_lines_exact : forall chunks, stream_log G chunks = lines_of (sep G) (concat chunks).
+Proof. apply stream_lines_exact_g. vm_compute. reflexivity. Qed.
 Print Assumptions stream_lines_exact.
 
 (* Hence two chunkings of the same bytes are logged identically. *)
-Theorem chunking_irrelevant : forall c1 c2, concat c1 = concat c2 -> stream_log c1 = stream_log c2.
-Proof. exact chunking_irrelevant_l. Qed.
+Theorem chunking_irrelevant : forall c1 c2, concat c1 = concat c2 -> stream_log G c1 = stream_log G c2.
+Proof. apply chunking_irrelevant_g. vm_compute. reflexivity. Qed.
 Print Assumptions chunking_irrelevant.
 
 (* No byte is lost or invented: the concatenation of the messages is the stream with the separators removed; no message
    contains a separator; no message is empty. *)
 Theorem stream_no_byte_lost : forall chunks,
-  concat (stream_log chunks) = strip_nl (concat chunks) /\
-  Forall (fun m => no_nl m /\ m <> []) (stream_log chunks).
-Proof. intros. split; [apply stream_no_byte_lost_l | apply stream_msgs_ok_l]. Qed.
+  concat (stream_log G chunks) = strip_nl (sep G) (concat chunks) /\
+  Forall (fun m => no_nl (sep G) m /\ m <> []) (stream_log G chunks).
+Proof.
+  assert (A : adapter_ok G = true) by (vm_compute; reflexivity).
+  intros. split; [now apply stream_no_byte_lost_g | now apply stream_msgs_ok_g].
+Qed.
 Print Assumptions stream_no_byte_lost.
 
-(* Execute with messages, for every outcome, every context state, every interleaving of the reads of the two pipes and
-   every chunking: the log is  start message, then only lines of the child, then exactly one end message;
-   per stream the child's lines are exactly the non-empty lines of what it wrote on that stream, in order;
-   the end message is the success message iff the child exited with status 0. *)
-Theorem execute_message_order : forall ctx o evs,
+(* Execute with messages, for every outcome, every state of the process context and of the caller's context, every
+   interleaving of the reads of the two pipes and every chunking: the log is  start message, then only lines of the
+   child, then exactly one end message; per stream the child's lines are exactly the non-empty lines of what it wrote
+   on that stream, in order; the end message is the success message iff the child exited with status 0. *)
+Theorem execute_message_order : forall ctx pctx o evs,
   exists middle,
-    execute true ctx o evs = (EStart :: middle ++ [end_entry (execute_error ctx o)], execute_error ctx o) /\
+    execute G true ctx pctx o evs =
+      (EStart :: middle ++ [end_entry G (execute_error G ctx pctx o)], execute_error G ctx pctx o) /\
     forallb is_line middle = true /\
-    (ran o = true -> proj SOut middle = lines_of (stream_bytes SOut evs) /\
-                     proj SErr middle = lines_of (stream_bytes SErr evs)) /\
-    (end_entry (execute_error ctx o) = EEndOk <-> o = Exited 0).
+    (ran o = true -> proj SOut middle = lines_of (sep G) (stream_bytes SOut evs) /\
+                     proj SErr middle = lines_of (sep G) (stream_bytes SErr evs)) /\
+    (end_entry G (execute_error G ctx pctx o) = EEndOk <-> o = Exited 0).
 Proof.
-  intros ctx o evs. exists (child_log (if ran o then evs else [])).
-  split; [apply execute_middle|]. split; [apply child_log_lines|]. split.
-  - intros ->. split; [apply child_log_out | apply child_log_err].
-  - rewrite end_entry_ok_iff. apply execute_error_nil_iff.
+  assert (A : adapter_ok G = true) by (vm_compute; reflexivity).
+  assert (W : wiring_ok G = true) by (vm_compute; reflexivity).
+  assert (E : exec_ok G = true) by (vm_compute; reflexivity).
+  assert (X : exit_ok G = true) by (vm_compute; reflexivity).
+  intros ctx pctx o evs. exists (child_log G (if ran o then evs else [])).
+  rewrite (execute_error_eq G E). split; [now rewrite (execute_shape G E)|].
+  split; [apply child_log_lines|]. split.
+  - intros ->. split; [now apply child_log_out | now apply child_log_err].
+  - rewrite (end_entry_ok_iff G E). now apply exec_err_nil_iff.
 Qed.
 Print Assumptions execute_message_order.
 
-(* Exit status: nil exactly for exit status 0 (whatever the context); every other outcome (status 1..255, death by any
-   signal, failure to start) is an error; and it is of the context's kind whenever the context was done. *)
-Theorem exit_status_mapping : forall ctx o,
-  (execute_error ctx o = ENil <-> o = Exited 0) /\
-  (forall k, ctx = Some k -> o <> Exited 0 ->
-     execute_error ctx o = match k with CtxCancelled => ECancelled | CtxDeadline => ETimeout end) /\
-  (ctx = None -> execute_error ctx o = convert_process_error o).
+(* Exit status: nil exactly for exit status 0 (whatever the contexts); every other outcome (status 1..255, death by any
+   signal, failure to start) is an error; and it is of the kind of the PROCESS context (cancelled by the caller's
+   context, its deadline, or Cancel()) whenever that context was done. *)
+Theorem exit_status_mapping : forall ctx pctx o,
+  (execute_error G ctx pctx o = ENil <-> o = Exited 0) /\
+  (forall k, ctx = Some k -> o <> Exited 0 -> execute_error G ctx pctx o = ctx_kind k) /\
+  (ctx = None -> execute_error G ctx pctx o = convert_process_error G o).
 Proof.
-  intros ctx o. split; [apply execute_error_nil_iff|]. split.
-  - intros k -> H. now apply execute_error_ctx.
-  - intros ->. apply execute_error_noctx.
+  assert (E : exec_ok G = true) by (vm_compute; reflexivity).
+  assert (X : exit_ok G = true) by (vm_compute; reflexivity).
+  intros ctx pctx o. rewrite (execute_error_eq G E). split; [now apply exec_err_nil_iff|]. split.
+  - intros k -> H. now apply exec_err_ctx.
+  - intros ->. apply exec_err_noctx.
 Qed.
 Print Assumptions exit_status_mapping.
 
 (* Output(): no start / end message; the caller's loggers get exactly the lines per stream; and the returned text,
-   split into lines, is exactly the sequence of all logged lines (both streams, in the order they were logged). *)
-Theorem output_returns_all : forall ctx o evs,
-  let '(text, log, e) := output ctx o evs in
+   split into lines, is exactly the sequence of all logged lines (both streams, in the order they were logged),
+   whatever the exit status. *)
+Theorem output_returns_all : forall ctx pctx o evs,
+  let '(text, log, e) := output G ctx pctx o evs in
   forallb is_line log = true /\
-  (ran o = true -> proj SOut log = lines_of (stream_bytes SOut evs) /\
-                   proj SErr log = lines_of (stream_bytes SErr evs)) /\
-  lines_of text = flat_map line_text log /\
-  e = execute_error ctx o.
+  (ran o = true -> proj SOut log = lines_of (sep G) (stream_bytes SOut evs) /\
+                   proj SErr log = lines_of (sep G) (stream_bytes SErr evs)) /\
+  lines_of 10 text = flat_map line_text log /\
+  e = execute_error G ctx pctx o.
 Proof.
-  intros ctx o evs. rewrite output_shape.
+  assert (A : adapter_ok G = true) by (vm_compute; reflexivity).
+  assert (W : wiring_ok G = true) by (vm_compute; reflexivity).
+  assert (E : exec_ok G = true) by (vm_compute; reflexivity).
+  assert (O : output_ok G = true) by (vm_compute; reflexivity).
+  assert (S : sep G = 10) by (vm_compute; reflexivity).
+  intros ctx pctx o evs. rewrite (output_shape G E O), (execute_error_eq G E).
   split; [apply child_log_lines|]. split.
-  - intros ->. split; [apply child_log_out | apply child_log_err].
-  - split; [|reflexivity]. apply lines_of_output_text. apply child_log_texts_ok.
+  - intros ->. split; [now apply child_log_out | now apply child_log_err].
+  - split; [|reflexivity]. apply linesof_output_text. rewrite <- S. now apply child_log_texts_ok.
 Qed.
 Print Assumptions output_returns_all.
 
+(* ---- facts of the generated record which the six theorems do not need but the tie records ---- *)
+
+(* Stop flushes the adapters after Wait as well (Start / Stop are outside the property) *)
+Example gen_stop_flushes : stop_flush G = true.
+Proof. vm_compute. reflexivity. Qed.
+
+(* ConvertProcessError, as generated, on the outcomes the harness produces *)
+Example gen_convert_table :
+  map (convert_process_error G) [Exited 0; Exited 3; Signaled 9; Signaled 15; Signaled 2; StartCtx CtxCancelled;
+                                 StartCtx CtxDeadline; StartNotFound; StartFailed] =
+  [ENil; EExit 3; EProcessDone; EProcessDone; ESignal 2; ECancelled; ETimeout; ENotFound; EOther].
+Proof. vm_compute. reflexivity. Qed.
+
 (* ---- documentation of the repaired defect (D16): the adapter as it was, logging each chunk on its own ---- *)
 
-(* it was exact only when every chunk ended at a line boundary ... *)
-Fact unbuffered_exact_when_aligned : forall chunks, Forall aligned chunks ->
-  stream_log_nocarry chunks = lines_of (concat chunks).
+Fact unbuffered_exact_when_aligned : forall sp chunks, Forall (aligned sp) chunks ->
+  stream_log_nocarry sp chunks = lines_of sp (concat chunks).
 Proof. exact nocarry_aligned_l. Qed.
 
-(* ... and split the line "abc" written as "ab" then "c\n" into two messages (the witness replayed by the harness). *)
 Example unbuffered_adapter_splits_lines :
-  stream_log_nocarry [[97; 98]; [99; 10]] = [[97; 98]; [99]] /\
-  lines_of (concat [[97; 98]; [99; 10]]) = [[97; 98; 99]] /\
-  stream_log [[97; 98]; [99; 10]] = [[97; 98; 99]].
-Proof. repeat split; reflexivity. Qed.
+  stream_log_nocarry 10 [[97; 98]; [99; 10]] = [[97; 98]; [99]] /\
+  lines_of 10 (concat [[97; 98]; [99; 10]]) = [[97; 98; 99]] /\
+  stream_log G [[97; 98]; [99; 10]] = [[97; 98; 99]].
+Proof. repeat split; vm_compute; reflexivity. Qed.
 
-(* ---- non-vacuity ---- *)
+(* ---- the conditions are not vacuous, and they matter: records which violate one of them falsify the property ---- *)
+
+Definition with_tail (F : facts) (t : list wop) : facts :=
+  {| sep := sep F; loop_ops := loop_ops F; tail_ops := t; flush_ops := flush_ops F; lp_resets := lp_resets F;
+     lp_drops_empty := lp_drops_empty F; lp_by_stream := lp_by_stream F; stdout_flag := stdout_flag F;
+     stderr_flag := stderr_flag F; run_flush := run_flush F; stop_flush := stop_flush F; flush_streams := flush_streams F;
+     run_converts := run_converts F; exec_seq := exec_seq F; end_ok_iff_nil := end_ok_iff_nil F;
+     output_plain := output_plain F; output_reads_always := output_reads_always F; conv_ctx_first := conv_ctx_first F;
+     rules := rules F |}.
+
+(* pending.Reset() before the carry-over: the beginning of a line which spans three reads is lost *)
+Example reset_before_carry_loses_bytes :
+  adapter_ok (with_tail G [WReset; WAppend]) = false /\
+  stream_log (with_tail G [WReset; WAppend]) [[97; 98]; [99]; [10]] = [[99]].
+Proof. split; vm_compute; reflexivity. Qed.
+
 Example c18_nonvacuous_stream :
-  stream_log [[97; 10; 10; 98]; []; [99; 10; 100]; [101]] = [[97]; [98; 99]; [100; 101]].
-Proof. reflexivity. Qed.
+  stream_log G [[97; 10; 10; 98]; []; [99; 10; 100]; [101]] = [[97]; [98; 99]; [100; 101]].
+Proof. vm_compute. reflexivity. Qed.
 
 Example c18_nonvacuous_execute :
-  execute true None (Exited 3) [(SOut, [97]); (SErr, [120; 10; 121]); (SOut, [98; 10])] =
+  execute G true None None (Exited 3) [(SOut, [97]); (SErr, [120; 10; 121]); (SOut, [98; 10])] =
   ([EStart; ELine SErr [120]; ELine SOut [97; 98]; ELine SErr [121]; EEndFail], EExit 3).
-Proof. reflexivity. Qed.
+Proof. vm_compute. reflexivity. Qed.
 
 Example c18_nonvacuous_cancel :
-  execute true (Some CtxCancelled) (Signaled 9) [(SOut, [97; 10; 98])] =
+  execute G true (Some CtxCancelled) None (Signaled 9) [(SOut, [97; 10; 98])] =
   ([EStart; ELine SOut [97]; ELine SOut [98]; EEndFail], ECancelled).
-Proof. reflexivity. Qed.
+Proof. vm_compute. reflexivity. Qed.
 
 Example c18_nonvacuous_output :
-  output None (Exited 0) [(SOut, [97; 10]); (SErr, [98; 10]); (SOut, [99])] =
+  output G None None (Exited 0) [(SOut, [97; 10]); (SErr, [98; 10]); (SOut, [99])] =
   ([97; 10; 98; 10; 99; 10], [ELine SOut [97]; ELine SErr [98]; ELine SOut [99]], ENil).
-Proof. reflexivity. Qed.
+Proof. vm_compute. reflexivity. Qed.
